@@ -92,6 +92,14 @@ func casesForEntry(e *gen.Entry, o CaseOpts, seedIdx int) []Case {
 					}
 				}
 			}
+			if o.JSON {
+				for _, v := range gen.JSONValueTexts() {
+					for _, s := range gen.JSONConsSeeds(v) {
+						// (position queries answer "unknown format" for JSON files: one position is enough)
+						out = append(out, Case{Entry: e, File: "main.tf.json", Text: s, Family: "json", PosFrom: 0, PosTo: 0})
+					}
+				}
+			}
 			// attribute name / equals sign being typed
 			for _, s := range []string{"", "a", "attr", "attr ", "attr =", "attr = ", "attr =\n", "blk {\n  attr = \n}\n", "blk {\n  attr =\n", "blk {\n  \n}\n"} {
 				out = append(out, Case{Entry: e, File: "main.tf", Text: s, Family: "prefix", PosTo: -1})
